@@ -116,10 +116,11 @@ class Model:
                 ex.ev(init, env)
             srt = R_ if ('float' in ty or 'double' in ty) else (B_ if ty.replace('const ', '') == 'bool' else I_)
             return ex.fresh(f'static_{name}', srt)
-        if init is None or ('std::vector<combinator_result>' in ty and '*' not in ty and '&' not in ty):
+        is_vec = ty.replace('const ', '').strip().startswith('std::vector<combinator_result') and '*' not in ty and '&' not in ty
+        if init is None or is_vec:
             if 'cell_item *' in ty:
                 return Ptr(None)
-            if 'std::vector<combinator_result>' in ty:
+            if is_vec:
                 v = Abstract('localvec')
                 v.state = 'empty'
                 return v
@@ -228,7 +229,7 @@ class Model:
             return Abstract('exception')
         if len(args) == 1 and isinstance(args[0], Item):
             return Item(dict(args[0].f), args[0].name)
-        if ty.startswith('std::pair') and len(args) == 2:
+        if ty.replace('const ', '').strip().startswith('std::pair') and len(args) == 2:
             return Rec('pair', dict(first=args[0], second=args[1]))
         if len(args) == 1:
             return args[0]
@@ -268,6 +269,10 @@ class Model:
     # ---- operators: matrix(), vector[], lambda()
     def operator(self, ex, opname, args, node):
         g = self.g
+        if getattr(self, 'operator_override', None) is not None:
+            r = self.operator_override(ex, opname, args, node)
+            if r is not NotImplemented:
+                return r
         if opname == 'operator()':
             obj = args[0]
             if isinstance(obj, Abstract) and obj.kind == 'matrix':
@@ -943,11 +948,34 @@ def _lambda_records(ast, m, g, name, cbname, lbody, params):
                 if mname == 'at':
                     log['at'].append(a[0])
                     return Abstract('stored_vector', key=a[0])
+                if mname == 'find':
+                    # the other way of probing: an iterator that is end() on a miss and points at (key, stored vector) on a hit
+                    log['hit'] = ex_.branch(ex_.fresh('cache_hit', B_))
+                    log['count_key'] = a[0]
+                    return Abstract('cache_iter', key=a[0], hit=log['hit'])
+                if mname in ('end', 'cend'):
+                    return Abstract('cache_end')
             if isinstance(obj, Abstract) and obj.kind == 'localvec':
+                if mname in ('reserve', 'size', 'empty', 'capacity', 'shrink_to_fit') and (obj.state == 'empty' or mname != 'reserve'):
+                    # observers, and reserve() on the still empty vector, leave its contents alone
+                    return ex_.fresh('vec_' + mname, I_) if mname in ('size', 'capacity') else (ex_.fresh('vec_empty', B_) if mname == 'empty' else None)
                 obj.state = 'tampered'
                 log['tamper'].append(mname)
                 return None
             raise CheckerError(f'method {mname} on {obj!r} in lambda {name} is not modelled')
+
+        def operator(ex_, opname, a, node):
+            kinds = [x.kind if isinstance(x, Abstract) else None for x in a]
+            if opname in ('operator!=', 'operator==') and sorted(kinds, key=str) == ['cache_end', 'cache_iter']:
+                it = [x for x in a if x.kind == 'cache_iter'][0]
+                return z3.BoolVal(it.hit if opname == 'operator!=' else not it.hit)
+            if opname in ('operator->', 'operator*') and kinds == ['cache_iter']:
+                if not a[0].hit:
+                    ex_.oblige('nonnull', z3.BoolVal(False), node, 'the end() iterator of the cache is dereferenced')
+                    raise Infeasible()
+                pair = Rec('pair', dict(first=a[0].key, second=Abstract('stored_vector', key=a[0].key)))
+                return Ptr(pair) if opname == 'operator->' else pair
+            return NotImplemented
 
         def call_value(ex_, f, a, node):
             if isinstance(f, Abstract) and f.kind == 'fnptr':
@@ -967,7 +995,7 @@ def _lambda_records(ast, m, g, name, cbname, lbody, params):
                     log['tamper'].append(fname)
             return None
         m.mode = dict(call=call)
-        m.method_override, m.call_value_override, m.throw_ok = method, call_value, log
+        m.method_override, m.call_value_override, m.throw_ok, m.operator_override = method, call_value, log, operator
         kind, val = 'fallthrough', None
         try:
             ex.run(lbody, env)
@@ -983,7 +1011,10 @@ def _lambda_records(ast, m, g, name, cbname, lbody, params):
         y = args[params[1]] if len(params) > 1 else z3.IntVal(U32 - 1)
 
         def key_is(k):
-            return z3.And(k.f['first'] == x, k.f['second'] == y) if isinstance(k, Rec) and k.kind == 'pair' else z3.BoolVal(False)
+            if not (isinstance(k, Rec) and k.kind == 'pair'):
+                # not knowing what the key is is not a violation: the obligation stays undecided (exit 3)
+                raise CheckerError(f'lambda {name}: the cache key {k!r} is not a std::pair this model can read')
+            return z3.And(k.f['first'] == x, k.f['second'] == y)
         add = lambda k, goal, what, props: out.append(dict(kind=k, line=line_of(lbody), goal=goal, pc=list(ex.pc), what=what, props=props, path=pi, facts=[], site=name))
         if kind == 'throw':
             add('memo-throw', z3.BoolVal(len(log['scaffold']) == 1 and not log['emplace']), 'an exception leaves the cache untouched', ('C11',))
